@@ -82,6 +82,31 @@ func cmdCheck(mode string, args []string) int {
 
 	var bl Baseline
 	loadJSON(filepath.Join(cf.verif, "baseline", "obligations.json"), &bl)
+	// An obligation that ran out of time is tried once more with three times the budget
+	// before it is reported: solver run times vary with machine load, and a timeout is not
+	// an answer. (Obligations that were never discharged on the unchanged tree - the open
+	// list - are not retried.)
+	{
+		openSet := map[string]bool{}
+		for _, names := range bl.Open {
+			for _, n := range names {
+				openSet[n] = true
+			}
+		}
+		var retry []*Obligation
+		for _, ob := range all {
+			if !ob.ExpectSat && !openSet[ob.Name] && (ob.Result == "timeout" || ob.Result == "unknown") {
+				retry = append(retry, ob)
+			}
+		}
+		if len(retry) > 0 && len(retry) <= 24 && mode != "baseline" {
+			for _, ob := range retry {
+				ob.Result, ob.Output, ob.Solver = "", "", ""
+				ob.Retried = true
+			}
+			solveAll(retry, solveOpts{TimeoutS: cf.timeout * 3, Workers: cf.workers, Dir: dir, Keep: keep, Only: cf.only, Models: true})
+		}
+	}
 	var kf KnownFile
 	loadJSON(filepath.Join(cf.verif, "known_findings.json"), &kf)
 
@@ -335,6 +360,8 @@ func writeEvidence(cf *checkFlags, prop string, nObl, nDis, nViol int, funcs, as
 			"solver_wins":          solverCnt,
 			"load_seconds":         eng.loadSecs,
 			"samples":              samples,
+			"obligation_results":   obs,
+			"open_not_claimed":     openList(cf, prop),
 			"per_obligation_timeout_s": cf.timeout,
 		},
 		"assumptions": append(append([]string{}, tb...), abstracted...),
@@ -345,3 +372,13 @@ func writeEvidence(cf *checkFlags, prop string, nObl, nDis, nViol int, funcs, as
 }
 
 var _ = strings.TrimSpace
+
+// openList: obligations of the property that were never discharged on the unchanged tree and
+// are therefore not claimed (they do not count as obligations of the check).
+func openList(cf *checkFlags, prop string) []string {
+	var bl Baseline
+	loadJSON(filepath.Join(cf.verif, "baseline", "obligations.json"), &bl)
+	out := append([]string{}, bl.Open[prop]...)
+	sort.Strings(out)
+	return out
+}
